@@ -17,14 +17,28 @@ ALPHA = space.alphabet('NOT', 'AND', 'GT', 'XOR', 'ALWAYS_TRUE', 'ALWAYS_FALSE')
 RS_ALPHA = space.alphabet('NOT', 'AND', 'XOR')
 
 
+VARIANTS = ('requeried', 'scrambled')  # deep copies / pickles are handled inside this module (OBJECT_VARIANT)
+
+
+def VARIANT_PRED(t, v):
+    return 'n' in t and 'k' in t and 'prefix' in t and not t.get('kind') and t['n'] + t['k'] <= 2 + (v == 'scrambled')
+
+CHAIN_ALPHA = space.alphabet('AND', 'GT', 'NOT')
+
+
 def plan(tier):
     t = []
-    fams = [(1, 1, 0, 'all'), (1, 2, 1, 'core'), (2, 1, 1, 'all'), (2, 2, 1, 'core'), (3, 1, 1, 'core')]
+    fams = [(1, 1, 0, 'all'), (1, 2, 1, 'core'), (2, 1, 1, 'all'), (2, 2, 1, 'core'), (3, 1, 1, 'core'),
+            (0, 2, 1, 'all'), (0, 3, 2, 'last2')]  # input-free circuits: everything hangs off constants
     if tier == 'thorough':
         fams += [(2, 3, 2, 'last2'), (3, 2, 1, 'last2'), (1, 3, 2, 'last2')]
     for n, k, split, pol in fams:
         for tk in space.tasks(n, k, ALPHA, split):
             tk.update(pol=pol)
+            t.append(tk)
+    for n, k in ((2, 1), (3, 1), (2, 2)):
+        for tk in space.tasks(n, k, CHAIN_ALPHA, 1):
+            tk.update(kind='chains')
             t.append(tk)
     for pat in ('not-and', 'cmp', 'or3'):
         for L in space.DEEP_LENGTHS[tier][:2]:
@@ -41,10 +55,10 @@ def plan(tier):
 
 def describe(tier):
     return {
-        'rule': 'deep: rename (inner gate, last gate, an input with a thousand users), replace_inputs and remove_gate on chains of 1200/3000 gates; circuit of F(n,k,{NOT,AND,GT,XOR,TRUE,FALSE}) x output policy x {no block, block over the last gate whose first input is both block input and block output}: '
+        'rule': 'chains: every sequence of three renames over the inputs and the first gate in which a label freed by the first rename is re-used later (F(2,1), F(3,1), F(2,2) over {AND,GT,NOT}); deep: rename (inner gate, last gate, an input with a thousand users), replace_inputs and remove_gate on chains of 1200/3000 gates; circuit of F(n,k,{NOT,AND,GT,XOR,TRUE,FALSE}) x output policy x {no block, block over the last gate whose first input is both block input and block output}: '
         'rename_gate(every node -> fresh label), replace_inputs(every assignment of {keep,True,False} to the inputs; also after the input order was changed by set_inputs / rename), '
         'remove_gate(every node), replace_subcircuit(every pair of disjoint node sets I (|I|<=2, 3 when n+k<=4) and O (|O|<=2) x '
-        'replacement in {fresh copy of the slice, canonical mux-tree re-synthesis, copy with double negation} x boundary labels '
+        'replacement in {fresh copy of the slice, canonical mux-tree re-synthesis, copy with double negation, copy whose first output vacuously reads every declared slice input} x boundary labels '
         '{kept, fresh}); slices whose cone reaches an unmapped primary input must be rejected; for n+k<=3 everything again on copy.deepcopy / pickle copies of the circuit. Oracle: reference truth tables positionally, netlist model of rename / cofactor, well-formedness; '
         'for replace_subcircuit: unchanged table + well-formed, or a CircuitError. distinct = distinct (operation, outcome).',
         'bounds': {'quick': 'F(1,<=2), F(2,<=2), F(3,1); replace_subcircuit additionally on F(2,3,{NOT,AND,XOR}) (last-gate output, copy and double-negation replacements)', 'thorough': '+ F(2,3), F(3,2), F(1,3) (outputs (last),(last,x0),())'}[tier],
@@ -88,7 +102,7 @@ def check_rename(n, gates, outs, blk, acc, net, ref):
                 from cirbo.core.circuit import Circuit
 
                 twin = Circuit()
-                for g_ in c.gates.values():
+                for g_ in c.top_sort(inverse=True):  # operands first, whatever the storage order is
                     twin.add_gate(g_)
                 twin.set_outputs(list(c.outputs))
                 twin_before = refmodel.abstract(twin).key()
@@ -398,6 +412,23 @@ def replacements(net, I, O, sl):
             omap[o] = ren[o]
         sub3 = refmodel.Net([ren[i] for i in I], [ren[o] for o in O], g3)
         yield f'dneg/{style}', sub3, {i: ren[i] for i in I}, omap
+        # r4: the copy, but the first output additionally reads EVERY declared slice input twice (XOR(f, i, i) = f):
+        # an equivalent replacement that depends structurally on all of I - if some i is itself a user of an
+        # output the replacement would close a loop and must be refused
+        if I and style == 'kept':
+            g4 = dict(g)
+            o0 = O[0]
+            inner = 'S_v_' + o0
+            g4[inner] = g4.pop(ren[o0])
+            for k2, (t2, ops2) in list(g4.items()):
+                g4[k2] = (t2, tuple(inner if x == ren[o0] else x for x in ops2))
+            cur = inner
+            for j, i in enumerate(I):
+                nxt = ren[o0] if j == len(I) - 1 else f'S_v{j}_' + o0
+                g4[nxt] = ('XOR', (cur, ren[i], ren[i]))
+                cur = nxt
+            sub4 = refmodel.Net([ren[i] for i in I], [ren[o] for o in O], g4)
+            yield f'vacuous/{style}', sub4, {i: ren[i] for i in I}, {o: ren[o] for o in O}
         # r2: canonical re-synthesis
         tabs = [refmodel.tt_rows(val[o], nin) for o in O]
         mx = mux_net(tabs, nin, 'M_')
@@ -672,9 +703,71 @@ def check_deep(acc, pattern, L, storage):
     acc.outcome('op', ('deep', pattern))
 
 
+def check_rename_chains(n, gates, outs, acc):
+    """Every sequence of three renames over the inputs and the first gate, with new labels drawn from the freed
+    ones and two fresh ones (a label freed by one rename is re-used by the next): netlist model after every
+    step."""
+    labs = space.labels(n, len(gates))
+    nodes = labs[:n] + labs[n:n + 1]
+    pool = nodes + ['t', 'z']
+    net0 = space.spec_net(n, gates, outs)
+    ref0 = net0.tables()
+    for seq in itertools.product(range(len(nodes)), pool, range(len(nodes)), pool, range(len(nodes)), pool):
+        # positions refer to "the node that currently sits at this original position"
+        cur = list(nodes)
+        steps = []
+        ok_seq = True
+        for i in range(0, 6, 2):
+            pos, new = seq[i], seq[i + 1]
+            old = cur[pos]
+            if new == old or new in cur or new in labs and new not in nodes:
+                ok_seq = False
+                break
+            steps.append((old, new))
+            cur[pos] = new
+        if not ok_seq or steps[0][1] not in ('t',) or not any(nw in nodes for _, nw in steps[1:]):
+            continue  # keep the sequences that free a label first and re-use a freed label later
+        acc.states += 1
+        acc.traces += 1
+        c = _build(n, gates, outs, False)
+        case = lambda: {**space.spec_json(n, gates, outs), 'block': False, 'rename_chain': [list(s_) for s_ in steps]}  # noqa: E731
+        ren = {}
+        bad = False
+        for old, new in steps:
+            acc.transitions += 1
+            try:
+                c.rename_gate(old, new)
+            except Exception as e:  # noqa: BLE001
+                acc.violation(f'rename_gate/raises-{type(e).__name__}', case, repr(e)[:200])
+                bad = True
+                break
+            orig = next((k_ for k_, v_ in ren.items() if v_ == old), old)
+            ren[orig] = new
+            sub = lambda x: ren.get(x, x)  # noqa: E731
+            got = refmodel.abstract(c)
+            want_inputs = [sub(i) for i in net0.inputs]
+            want_gates = {sub(k_): (t, tuple(sub(o) for o in ops)) for k_, (t, ops) in net0.gates.items()}
+            if got.inputs != want_inputs or got.gates != want_gates or got.outputs != [sub(o) for o in net0.outputs]:
+                acc.violation('rename_gate/references-not-renamed', case, f'after {old}->{new}: inputs {got.inputs} expected {want_inputs}')
+                bad = True
+                break
+            if refmodel.wellformed(c, deep=False):
+                acc.violation('rename_gate/ill-formed', case, refmodel.wellformed(c, deep=False)[:2])
+                bad = True
+                break
+        if not bad:
+            gt = refmodel.abstract(c).tables()
+            if any(gt[ren.get(k_, k_)] != ref0[k_] for k_ in net0.gates):
+                acc.violation('rename_gate/truth-table-changed', case, '')
+
+
 def run_task(task, acc):
     if task.get('kind') == 'deep':
         return check_deep(acc, task['pattern'], task['L'], task['storage'])
+    if task.get('kind') == 'chains':
+        for gates in space.enum_gates(task['n'], task['k'], CHAIN_ALPHA, space.prefix_from_task(task)):
+            check_rename_chains(task['n'], gates, (task['n'] + task['k'] - 1, 0), acc)
+        return
     alpha = RS_ALPHA if task.get('rs_only') else ALPHA
     for gates in space.enum_gates(task['n'], task['k'], alpha, space.prefix_from_task(task)):
         check_circuit(task['n'], gates, acc, task['pol'], task.get('rs_only', False))
@@ -685,6 +778,9 @@ def replay(case, acc):
         return run_task(case['task'], acc)
     if 'deep_chain' in case:
         return check_deep(acc, case['deep_chain'], case['length'], case['storage'])
+    if 'rename_chain' in case:
+        n, gates, outs = space.spec_from_json(case)
+        return check_rename_chains(n, gates, outs, acc)
     n, gates, outs = space.spec_from_json(case)
     net = space.spec_net(n, gates, outs)
     ref = net.tables()
